@@ -59,6 +59,7 @@ def apply_actions(
         )
 
     accumulative_changed_state = current_state.copy()
+    accumulative_changed_state.is_init = False
     for action_call in executed_actions:
         action = domain.actions[action_call.name]
         operator = Operator(
